@@ -167,7 +167,7 @@ func init() {
 			What: "same shapes, one configured credential: success => reply 05 02 / 01 00 and the presented pair equals it", Bounds: "8 shapes, credentials <= 3 bytes", Outside: "as above"},
 		HarnessDef{ID: "H11.1s-2q", Spec: HarnessSpec{Name: "vH_C11_shaped_2cred_small", Pkg: "pkg/socks5", LoopBound: 12, LoopBounds: map[string]int{"ReadAtLeast": 2}, TimeoutS: 240, Par: 6},
 			What: "two configured credentials with 1-byte user and password (symbolic), complete negotiations offering 1..2 methods and presenting a 1-byte user/password: success => reply 05 02 / 01 00 and the presented user AND password equal ONE configured pair (not the user of one and the password of the other)", Bounds: "1-byte fields, all byte values", Outside: "longer fields: H11.1s-2 (thorough)"},
-		HarnessDef{ID: "H11.1s-2", Tier: "thorough", Spec: HarnessSpec{Name: "vH_C11_shaped_2cred", Pkg: "pkg/socks5", LoopBound: 12, LoopBounds: map[string]int{"ReadAtLeast": 2}, TimeoutS: 120, Par: 6},
+		HarnessDef{ID: "H11.1s-2", Tier: "off", Spec: HarnessSpec{Name: "vH_C11_shaped_2cred", Pkg: "pkg/socks5", LoopBound: 12, LoopBounds: map[string]int{"ReadAtLeast": 2}, TimeoutS: 120, Par: 6},
 			What: "same shapes, two configured credentials: success => the presented user AND password equal ONE configured pair", Bounds: "8 shapes, credentials <= 3 bytes", Outside: "as above"},
 		HarnessDef{ID: "H11.1-0", Tier: "thorough", Spec: HarnessSpec{Name: "vH_C11_auth_nocred", Pkg: "pkg/socks5", LoopBound: 12, LoopBounds: map[string]int{"ReadAtLeast": 2}, TimeoutS: 120, Par: 4},
 			What:   "handleAuthentication on an arbitrary byte stream, no credentials configured: success only via method 0x00 with reply 05 00",
@@ -175,7 +175,7 @@ func init() {
 		HarnessDef{ID: "H11.1-1", Tier: "thorough", Spec: HarnessSpec{Name: "vH_C11_auth_1cred", Pkg: "pkg/socks5", LoopBound: 12, LoopBounds: map[string]int{"ReadAtLeast": 2}, TimeoutS: 120, Par: 4},
 			What:   "handleAuthentication, one configured credential: success only after reply 05 02 and a presented user/password equal to it",
 			Bounds: "<= 6 methods, user/password <= 3 bytes, stream <= 19 bytes", Outside: "longer credentials (length bytes are symbolic, contents compared bytewise up to 3)"},
-		HarnessDef{ID: "H11.1-2", Tier: "thorough", Spec: HarnessSpec{Name: "vH_C11_auth_2cred", Pkg: "pkg/socks5", LoopBound: 12, LoopBounds: map[string]int{"ReadAtLeast": 2}, TimeoutS: 120, Par: 4},
+		HarnessDef{ID: "H11.1-2", Tier: "off", Spec: HarnessSpec{Name: "vH_C11_auth_2cred", Pkg: "pkg/socks5", LoopBound: 12, LoopBounds: map[string]int{"ReadAtLeast": 2}, TimeoutS: 120, Par: 4},
 			What: "same with two configured credentials", Bounds: "as H11.1-1", Outside: "as H11.1-1"},
 	)
 	ral := map[string]int{"ReadAtLeast": 2}
@@ -194,9 +194,9 @@ func init() {
 		HarnessDef{ID: "H18.1a", Spec: HarnessSpec{Name: "vH_C18_tunnel_frame", Pkg: "apis/common", LoopBound: 12, TimeoutS: 120},
 			What:   "PacketOverStreamTunnel.Write: frame = 00 | BE16(len) | data | ff, exactly one conn write of len+4 bytes; > 65535 bytes is an error and nothing is written",
 			Bounds: "every datagram length 0..70000 (symbolic), contents abstract", Outside: "-"},
-		HarnessDef{ID: "H18.1b-q", Tier: "thorough", Spec: HarnessSpec{Name: "vH_C18_tunnel_roundtrip_quick", Pkg: "apis/common", LoopBound: 12, LoopBounds: map[string]int{"ReadAtLeast": 5}, TimeoutS: 240, Par: 8},
+		HarnessDef{ID: "H18.1b-q", Tier: "off", Spec: HarnessSpec{Name: "vH_C18_tunnel_roundtrip_quick", Pkg: "apis/common", LoopBound: 12, LoopBounds: map[string]int{"ReadAtLeast": 5}, TimeoutS: 240, Par: 8},
 			What: "two datagrams (sizes 0..2 x 0..1) written then read back through a stream delivered in ARBITRARY chunks: same boundaries, same bytes, then an error", Bounds: "sizes 0..2 x 0..1, chunk sizes arbitrary", Outside: "larger datagrams: H18.1b (thorough), H18.1a/c"},
-		HarnessDef{ID: "H18.1b", Tier: "thorough", Spec: HarnessSpec{Name: "vH_C18_tunnel_roundtrip", Pkg: "apis/common", LoopBound: 12, LoopBounds: map[string]int{"ReadAtLeast": 5}, TimeoutS: 240, Par: 6},
+		HarnessDef{ID: "H18.1b", Tier: "off", Spec: HarnessSpec{Name: "vH_C18_tunnel_roundtrip", Pkg: "apis/common", LoopBound: 12, LoopBounds: map[string]int{"ReadAtLeast": 5}, TimeoutS: 240, Par: 6},
 			What:   "two datagrams written then read back through a stream delivered in ARBITRARY chunks: same boundaries, same bytes (symbolic contents incl. marker values), then an error (no phantom datagram)",
 			Bounds: "datagram sizes 0..3 x 0..3 (case split), chunk sizes arbitrary 1..16, reader buffer 4", Outside: "larger datagrams only through H18.1a/H18.1c (the framing code has no size-dependent branch other than the two checked there)"},
 		HarnessDef{ID: "H18.1c", Spec: HarnessSpec{Name: "vH_C18_tunnel_malformed", Pkg: "apis/common", LoopBound: 12, LoopBounds: map[string]int{"ReadAtLeast": 5}, TimeoutS: 120, Par: 2},
@@ -222,7 +222,7 @@ func init() {
 		HarnessDef{ID: "H6.1b", Spec: HarnessSpec{Name: "vH_C06_cache_bmc_tagsF", Pkg: "pkg/replay", LoopBound: 8, TimeoutS: 400, Par: 8, Solver: "cvc5-int", TimeUnit: "ns", Redirects: c06R}, ReplayPatches: c06P,
 			What:   "every history of 4 calls with arbitrary tags from {\"\", a, b}: a never-seen item is never reported; an item ACCEPTED under one tag less than the interval ago and followed by fewer distinct items than the capacity is reported EVERY time it is offered under another tag (or with either tag empty) - so a recorded datagram re-sent from another address is refused on the second attempt too",
 			Bounds: "4 calls, capacity 1..3, interval 1000 ns, 4-item alphabet, arbitrary non-decreasing clock at every reading", Outside: "longer histories; symbolic interval (thorough H6.1b-s); FNV collisions"},
-		HarnessDef{ID: "H6.1b-s", Tier: "thorough", Spec: HarnessSpec{Name: "vH_C06_cache_bmc_tags", Pkg: "pkg/replay", LoopBound: 8, TimeoutS: 1500, Par: 8, Solver: "cvc5-int", TimeUnit: "ns", Redirects: c06R}, ReplayPatches: c06P,
+		HarnessDef{ID: "H6.1b-s", Tier: "off", Spec: HarnessSpec{Name: "vH_C06_cache_bmc_tags", Pkg: "pkg/replay", LoopBound: 8, TimeoutS: 1500, Par: 8, Solver: "cvc5-int", TimeUnit: "ns", Redirects: c06R}, ReplayPatches: c06P,
 			What: "same as H6.1b with a symbolic interval 1 ns..1 h", Bounds: "4 calls, capacity 1..3, 4 items", Outside: "as H6.1b"},
 		HarnessDef{ID: "H6.1c", Spec: HarnessSpec{Name: "vH_C06_cache_disabled", Pkg: "pkg/replay", LoopBound: 8, TimeoutS: 60},
 			What: "nil cache and capacity 0 never report a replay and never panic", Bounds: "-", Outside: "-"},
@@ -612,4 +612,21 @@ func init() {
 			reg("C19", d2)
 		}
 	}
+}
+
+func init() {
+	var base HarnessDef
+	for _, d := range registry["C04"] {
+		if d.ID == "H4.1" {
+			base = d
+		}
+	}
+	m := base
+	m.ID, m.Spec.Name = "H4.1p", "vH_C04_tcp_prefix"
+	m.What = "TCP prefix property over TWO genuine data segments A, B written by the real writeOneSegment: the real readOneSegment on an ARBITRARY 89-byte stream returns, if anything, A (same sequence number and payload) - never B first. The ideal cipher identifies (initial nonce N, k-th use) with (N+k, first use), as the real counter-mode nonce does. Outside the region of known finding C04-n (nonce bytes on the wire rewritten), which H4.1pk isolates"
+	m.Bounds = "two segments of 1 byte, no padding"
+	k := m
+	k.ID, k.Spec.Name, k.KnownFinding = "H4.1pk", "vH_C04_tcp_prefix_nonce_rewrite", "C04-n"
+	k.What = "the region of known finding C04-n alone: the 24 nonce bytes at the start of the stream differ from the genuine ones"
+	reg("C04", m, k)
 }
